@@ -336,9 +336,16 @@ func runC19(p *an.Prog, r *an.Run, tier string) {
 		if len(u.Fail) == 0 {
 			bad = append(bad, "connect does not branch on the normalisation's error")
 		}
+		regVia := map[ssa.Instruction]string{}
+		for _, a := range helperRegistrations(conn, poolMapAccesses(p, "remoteHosts", "remoteNodeLookup")) {
+			regVia[a.In] = a.Field
+		}
 		for _, e := range u.Fail {
 			if in := pathFromBlock(conn, e.To, nil, func(x ssa.Instruction) bool {
 				if mu, ok := x.(*ssa.MapUpdate); ok && memMapField(mu.Map) == "remoteHosts" {
+					return true
+				}
+				if regVia[x] != "" {
 					return true
 				}
 				c, ok := x.(ssa.CallInstruction)
@@ -347,6 +354,20 @@ func runC19(p *an.Prog, r *an.Run, tier string) {
 				bad = append(bad, "the host is registered/stored at "+p.Pos(in.Pos())+" although its address could not be determined")
 			}
 		}
+		// ... nor ahead of the decision: a connection entered into the pool's host maps before the normalisation has
+		// accepted it replaces the host's live connection even when the registration is then refused
+		an.AllInstrs(conn, func(in ssa.Instruction) {
+			field := regVia[in]
+			if mu, ok := in.(*ssa.MapUpdate); ok {
+				field = memMapField(mu.Map)
+			}
+			if field != "remoteHosts" && field != "remoteNodeLookup" {
+				return
+			}
+			if hit := an.PathAvoiding(conn, in, nil, func(x ssa.Instruction) bool { return x == ssa.Instruction(nzCall) }, nil); hit != nil {
+				bad = append(bad, "the connection is entered into "+field+" at "+p.Pos(in.Pos())+" before normalizeNodeURI has accepted the registration ("+p.Pos(nzCall.Pos())+"): a refused registration still replaces the host's live connection")
+			}
+		})
 		// the stored URI is the normalised one
 		okStore := false
 		an.AllInstrs(conn, func(in ssa.Instruction) {
